@@ -1,9 +1,9 @@
 #!/bin/sh
 # Evaluate a whole round of seeded changes in parallel, each job in its own evaluation copy.
-# usage: tools/seeded_eval_parallel.sh <base dir, e.g. /tmp/wt3> <index offset, e.g. 4> <jobs>
-BASE="$1"; OFF="$2"; JOBS="${3:-4}"
+# usage: tools/seeded_eval_parallel.sh <base dir, e.g. /tmp/wt3> <index offset, e.g. 4> <jobs> [first copy number, default 1]
+BASE="$1"; OFF="$2"; JOBS="${3:-4}"; FIRST="${4:-1}"
 cd "$(dirname "$0")/.."
-for k in $(seq 1 "$JOBS"); do tools/eval_copy.sh "$k" >/dev/null || exit 2; done
+for k in $(seq 1 "$JOBS"); do c=$((k + FIRST - 1)); tools/eval_copy.sh "$c" >/dev/null || exit 2; mkdir -p /tmp/eval$c/verif/build/cache; cp build/cache/* /tmp/eval$c/verif/build/cache/ 2>/dev/null; done
 ls -d "$BASE"/*-out | sed 's#.*/##; s#-out##' | while read id; do for i in 1 2 3 4; do [ -f "$BASE/$id-out/patch$i.diff" ] && echo "$id $i"; done; done > /tmp/seeded_jobs.txt
 # both changes of one property share a scratch worktree: keep them in the same job
 n=0; last=""
@@ -14,7 +14,7 @@ while read id i; do
 done < /tmp/seeded_jobs.txt > /tmp/seeded_jobs_k.txt
 for k in $(seq 1 "$JOBS"); do
   ( grep " $k\$" /tmp/seeded_jobs_k.txt | while read id i kk; do
-      python3 tools/seeded_eval.py "$id" "$i" --base "$BASE" --as $((i + OFF)) --copy "$k" 2>&1 | tail -1
+      python3 tools/seeded_eval.py "$id" "$i" --base "$BASE" --as $((i + OFF)) --copy "$((k + FIRST - 1))" 2>&1 | tail -1
     done ) > "/tmp/seeded_par_$k.log" 2>&1 &
 done
 wait
